@@ -134,3 +134,50 @@ Example C18_hc_mid_nonvacuous :
   htrace (ex_m, ex_hc0) ex_hops =
   [Some (81, 0); Some (20, 78); Some (18, 63); Some (100, 0); Some (28, 78); Some (12, 34); Some (0, 78); Some (0, 0); Some (73, 78)].
 Proof. exact (conj ex_hstate (conj ex_hstream_pre ex_htrace)). Qed.
+
+(* ================================================================ HC, hash-chain levels (compression levels 3..9)
+   [cstate_inv] = memory holds bytes /\ [cs_ok]: the lz4mid stream invariant on the same record (hashTable entries are indices
+   below the index reached so far, lowLimit <= dictLimit, an anchored context has lowLimit >= 64 KB, ...) and - unless dirty -
+   chainTable entries are 16-bit and 0 <= nextToUpdate (together: HcChainSearch.TB at the index reached); the same for an
+   attached dictionary context.
+   - C18_hc_chain_reuse / _step: established by LZ4_initStreamHC and preserved by EVERY modelled operation of ANY history that
+     stays in the model: failed calls (dirty), LZ4_resetStreamHC(_fast), level changes within 3..9, loadDictHC, attach,
+     saveDictHC (F17, F18), destSize calls with partial consumption (re-anchoring, LZ4HC_clearTables beyond 1 GB), one-shot
+     LZ4_compress_HC_extStateHC(_fastReset) on the stream object.  LZ4_setCompressionLevel never touches the tables; a change
+     to another STRATEGY keeps the C invariant too (every hashTable entry stays an index below the index reached, whoever
+     wrote it) but leaves this model, whose tables have the hash-chain shape.
+   - C18_hc_chain_fastReset: the one-shot fast-reset call on a context in ANY such state runs the parser on a freshly anchored
+     index space: its block decodes WITHOUT history (claim in C18_hc_chain_history). *)
+From LZ4V Require Import Model.HcChain Model.HcChainApi Model.HcChainStream Proofs.HcChainStreamProofs Proofs.HcChainStreamHist Proofs.HcChainStreamExamples.
+
+Theorem C18_hc_chain_reuse :
+  forall ops st st', cstate_inv st -> cops_pre st ops -> crun st ops = Some st' -> cstate_inv st'.
+Proof. exact cs_inv_run. Qed.
+Print Assumptions C18_hc_chain_reuse.
+
+Theorem C18_hc_chain_step :
+  forall st o st' x, cstate_inv st -> cop_pre st o -> cstep st o = Some (st', x) -> cstate_inv st'.
+Proof. exact cstep_inv. Qed.
+Print Assumptions C18_hc_chain_step.
+
+Theorem C18_hc_chain_fastReset :
+  forall m c src n cap level ret consumed out hw c',
+  hmem_ok m -> cs_ok c -> 0 < src -> 0 <= n < 2147483648 -> 0 <= cap ->
+  cs_fastReset m c src n cap level = Some (CRes ret consumed out hw c') ->
+  let lim := if cap <? compressBound n then LimitedOutput else NotLimited in
+  let ke := k_init_internal (cs_core (cs_resetFast c level)) src in
+  k_ready ke src /\ k_lowLimit ke = k_dictLimit ke /\ k_endIdx ke = k_dictLimit ke /\
+  ccall_post m ke src n cap lim ret consumed out hw c'.
+Proof. exact cs_fastReset_sound. Qed.
+Print Assumptions C18_hc_chain_fastReset.
+
+Theorem C18_hc_chain_history :
+  forall ops st H, cstate_inv st -> cstream_pre st H ops -> cstream_claim st H ops.
+Proof. exact cstream_roundtrip. Qed.
+Print Assumptions C18_hc_chain_history.
+
+Example C18_hc_chain_nonvacuous :
+  cstate_inv (ex_m, ex_cc0) /\ cstream_pre (ex_m, ex_cc0) [] ex_cops /\
+  ctrace (ex_m, ex_cc0) ex_cops =
+  [Some (81, 0); Some (20, 78); Some (18, 63); Some (0, 0); Some (100, 0); Some (27, 78); Some (8, 7); Some (0, 78); Some (0, 0); Some (73, 78)].
+Proof. exact (conj ex_cstate (conj ex_cstream_pre ex_ctrace)). Qed.
